@@ -5,3 +5,8 @@ pub mod domx;
 pub mod forkpool;
 pub mod sched;
 pub mod c18;
+pub mod vals;
+pub mod specdb;
+pub mod plan;
+pub mod codec;
+pub mod sweeps;
